@@ -1021,7 +1021,9 @@ func ruleTaskType(r *Report, p *Program) {
 			r.Fatal("J3", "types.TaskType."+m, "not found")
 			continue
 		}
-		paths := walkSimple(p, fn, []string{"tt", "in"}, func(f *ssa.Function, d int) bool { return f.Parent() != nil })
+		// function literals and the unexported helpers of the package (taskTypeFromCode(n), taskTypeFromText(s)) are
+		// part of the reader
+		paths := walkSimple(p, fn, []string{"tt", "in"}, typesHelpers(p))
 		accepted := IntervalSet{}
 		bad := ""
 		for _, pa := range paths {
